@@ -690,3 +690,76 @@ def _param_tested_first(fn, par):
     if isinstance(p, ast.BoolOp) and p.values[0] is u:
         return True
     return False
+
+
+# ----------------------------------------------------------------------------- PG1
+def pg1(model):
+    r = RuleResult('PG1', 'progress of the expansion loops: in expand_sequence and '
+                   'expand_math_section every branch of the dispatch either reaches the buf.next() '
+                   'at the end of the loop body, or continues / breaks / returns after a statement '
+                   'that consumes input (buf.next(), or a call that is handed the buffer)', floor=20)
+    for q in ('parser.Parser.expand_sequence', 'mathparser.MathParser.expand_math_section'):
+        f = model.func(q)
+        loops = [s for s in f.node.body if isinstance(s, ast.While)]
+        if not loops:
+            raise AnalysisError('anchor vanished: main loop of ' + q)
+        loop = loops[0]
+        bufname = f.params[1]
+        body = loop.body
+        # the trailing consume
+        tail = body[-1]
+        tail_consumes = _consumes(tail, bufname)
+        chain = [s for s in body if isinstance(s, ast.If)]
+
+        def walk_branches(stmts, path):
+            """yield (branch statements, exits_loop_iteration) for every leaf of if/elif chains"""
+            for s in stmts:
+                if isinstance(s, ast.If):
+                    yield from walk_branches(s.body, path + [s])
+                    if s.orelse:
+                        yield from walk_branches(s.orelse, path + [s])
+            if stmts and not isinstance(stmts[-1], ast.If):
+                yield stmts
+            elif stmts and isinstance(stmts[-1], ast.If) and not stmts[-1].orelse:
+                yield stmts
+        seen = set()
+        for top in chain:
+            for br in walk_branches([top], []):
+                key = id(br[0])
+                if key in seen or br is body:
+                    continue
+                seen.add(key)
+                last = br[-1]
+                leaves = isinstance(last, (ast.Continue, ast.Break, ast.Return)) or \
+                    (isinstance(last, ast.If))
+                if isinstance(last, ast.If):
+                    continue
+                if isinstance(last, (ast.Break, ast.Return)):
+                    r.ok(last, 'branch leaves the loop', sample=False)
+                    continue
+                if isinstance(last, ast.Continue):
+                    cons = any(_consumes(s, bufname) for s in br[:-1])
+                    if cons:
+                        r.ok(last, 'branch consumes input before `continue`', nontrivial=True, sample=False)
+                    else:
+                        r.fail(last, 'this branch of %s continues without consuming input: the same '
+                               'token is looked at again and again' % f.name,
+                               witness='a document that reaches this branch: the filter hangs')
+                else:
+                    if tail_consumes:
+                        r.ok(last, 'branch falls through to the buf.next() at the end of the loop body',
+                             sample=False)
+                    else:
+                        r.fail(tail, 'the loop body of %s no longer ends with buf.next()' % f.name)
+    return r
+
+
+def _consumes(stmt, bufname):
+    for n in ast.walk(stmt):
+        if isinstance(n, ast.Call):
+            if isinstance(n.func, ast.Attribute) and n.func.attr in ('next', 'skip_space') \
+                    and unparse(n.func.value) == bufname:
+                return True
+            if any(isinstance(a, ast.Name) and a.id == bufname for a in n.args):
+                return True
+    return False
